@@ -166,6 +166,10 @@ def structure_recipes(seed):
     recI["via"] = "memory"
     recI["noswitch"] = True
     out.append(recI)
+    # J: one atom at the origin of an R group: the only point with the same coordinates in both settings
+    gramJ = [[18 * 3, -9 * 3, 0], [-9 * 3, 18 * 3, 0], [0, 0, 9 * 7]]
+    out.append({"number": 166, "choice": "H", "n": 12, "gram": gramJ, "u": (len([r for r in rows if r["number"] == 166 and r["choice"] == "H"][0]["ops"]) * 20.0 / math.sqrt(xtal.det3(gramJ))) ** (1 / 3.0),
+                "asym": [{"z": 80, "p": [0, 0, 0], "occ": 12, "label": "Hg1"}], "via": "cif"})
     # H: a molecule with at least two hydrogens on C, N or O (X-H distances as X-ray structures give them, to be normalised)
     recH = None
     for _ in range(400):
